@@ -85,7 +85,12 @@ def run(ctx):
     ctx.floor("C10.INVAL", n_mut, 4, "rruleset methods that mutate member lists")
 
     # ---------------------------------------------------------------- C10.WRAP
-    wrap = prog.func("rrule._invalidates_cache.inner_func", "C10.WRAP")
+    outer0 = prog.func("rrule._invalidates_cache", "C10.WRAP")
+    inner_defs = [x for x in outer0.node.body if isinstance(x, ast.FunctionDef)]
+    if len(inner_defs) != 1:
+        raise AnalysisError("C10.WRAP", outer0.qualname, "expected one wrapper function inside the decorator, found %d" % len(inner_defs))
+    wname = inner_defs[0].name          # whatever the wrapper is called
+    wrap = prog.func("rrule._invalidates_cache." + wname, "C10.WRAP")
     cfg = ctx.cfg(wrap)
     calls_f = [n for n in cfg.live_nodes() if n.kind == "stmt" and isinstance(n.ast, (ast.Assign, ast.Expr, ast.Return))
                and any(isinstance(x, ast.Call) and src(x.func) == "f" for x in ast.walk(n.ast))]
@@ -93,14 +98,14 @@ def run(ctx):
     ok = bool(calls_f) and bool(inv) and cfg.path_avoiding(cfg.entry, [cfg.exit], avoid_nodes=inv) is None \
         and all(cfg.dominates(calls_f, i) for i in inv)
     ctx.ob("C10.WRAP", wrap, "the wrapper calls the wrapped mutator and then self._invalidate_cache() on every normal path", ok,
-           construct="inner_func body", analysis="CFG must-pass-through")
+           construct="wrapper body", analysis="CFG must-pass-through")
     rets = [n for n in cfg.live_nodes() if n.kind == "stmt" and isinstance(n.ast, ast.Return)]
     rd = ReachingDefs(cfg, params=wrap.params)
     okr = bool(rets) and all(isinstance(r.ast.value, ast.Name) and all(i and cfg.nodes[i] in calls_f for i in rd.at(r, r.ast.value.id)) for r in rets)
-    ctx.ob("C10.WRAP", wrap, "the wrapper returns the wrapped function's result", okr, construct="return of inner_func")
+    ctx.ob("C10.WRAP", wrap, "the wrapper returns the wrapped function's result", okr, construct="return of the wrapper's result")
     outer = prog.func("rrule._invalidates_cache", "C10.WRAP")
-    ctx.ob("C10.WRAP", outer, "the decorator returns the wrapper", any(isinstance(x, ast.Return) and src(x.value) == "inner_func" for x in walk_local(outer.node)),
-           construct="return inner_func")
+    ctx.ob("C10.WRAP", outer, "the decorator returns the wrapper", any(isinstance(x, ast.Return) and src(x.value) == wname for x in walk_local(outer.node)),
+           construct="return of the wrapper")
 
     # ---------------------------------------------------------------- C10.RESET
     binit = prog.method(base.qualname, "__init__", "C10.RESET")
